@@ -11,6 +11,9 @@
 //! world's PRNG, so an execution is a function of the world's seed and the code alone. Every
 //! socket-level event (kind, connection id, length, virtual time) is folded into a digest.
 
+pub mod hyperconn;
+pub use hyperconn::HyperConnector;
+
 use std::cell::RefCell;
 use std::collections::{BTreeMap, VecDeque};
 use std::io;
@@ -173,7 +176,8 @@ pub trait ToSocketAddrs {
     fn resolve(&self) -> io::Result<Vec<SocketAddr>>;
 }
 fn resolve_host(h: &str, port: u16) -> io::Result<Vec<SocketAddr>> {
-    let h = h.trim_start_matches('[').trim_end_matches(']');
+    // like std/tokio: a host in a (host, port) pair is an IP address literal WITHOUT brackets or a
+    // name; "[::1]" is neither (getaddrinfo fails on it)
     if let Ok(ip) = h.parse::<IpAddr>() {
         return Ok(vec![SocketAddr::new(ip, port)]);
     }
